@@ -26,6 +26,12 @@ use crate::lean::{self, lower_camel, snake};
 use crate::{canon, fail, Sources, R};
 use std::collections::BTreeMap;
 
+thread_local! {
+    /// private FREE functions of client.rs whose body is `(let x = E;)* <expr>` (crate::mini::helpers_of): a call is read as
+    /// that expression with the arguments for the parameters
+    static FREE_HELPERS: std::cell::RefCell<BTreeMap<String, crate::mini::Helper>> = Default::default();
+}
+
 const FILE: &str = "client.rs";
 
 #[derive(Clone, Debug, PartialEq)]
@@ -538,6 +544,29 @@ fn lit_str(e: &syn::Expr) -> Option<String> {
 fn url_expr(item: &str, e: &syn::Expr, helpers: &BTreeMap<String, &syn::ImplItemFn>) -> R<UrlX> {
     let e = strip(e);
     let shape = "`B | B.expect(\"lit\") | B.ok_or(Path::Variant(\"lit\"))?` with B = `self.f.as_ref()` or `self.getter()`";
+    // a private free helper function called with arguments: its body, with the arguments for the parameters
+    if let syn::Expr::Call(c) = e {
+        if let syn::Expr::Path(p) = &*c.func {
+            if p.path.segments.len() == 1 {
+                let name = p.path.segments[0].ident.to_string();
+                let expanded = FREE_HELPERS.with(|m| {
+                    m.borrow().get(&name).and_then(|h| {
+                        if h.has_self || h.params.len() != c.args.len() {
+                            return None;
+                        }
+                        let mut env = crate::mini::Env::default();
+                        for (pn, a) in h.params.iter().zip(c.args.iter()) {
+                            env.map.insert(pn.clone(), a.clone());
+                        }
+                        Some(env.resolve(&h.body))
+                    })
+                });
+                if let Some(x) = expanded {
+                    return url_expr(item, &x, helpers);
+                }
+            }
+        }
+    }
     match e {
         syn::Expr::Try(t) => {
             let mut u = url_expr(item, &t.expr, helpers)?;
@@ -683,6 +712,7 @@ fn single_tail<'a>(item: &str, f: &'a syn::ImplItemFn) -> R<&'a syn::Expr> {
 
 pub fn extract(srcs: &Sources, inv: &Inv) -> R<String> {
     let file = srcs.get(FILE)?;
+    FREE_HELPERS.with(|m| *m.borrow_mut() = crate::mini::helpers_of(file, None, &[]));
     // ---- struct Client
     let st = file
         .items
